@@ -338,9 +338,9 @@ func kindOf(r *hlib.Rand) string {
 }
 
 func (h) Gen(r *hlib.Rand, tier string, scale int, emit func(string)) {
-	n := 260 * scale
+	n := 700 * scale
 	if tier == "thorough" {
-		n = 5000 * scale
+		n = 6000 * scale
 	}
 	// (c) primitives
 	for i := 0; i < n; i++ {
